@@ -20,11 +20,12 @@ from harness.checks.c01 import reg_enthalpy
 from harness.trace import GEN_HEADER, NpProxy, Sym, Trace, rebind, symarray, to_lean, used_vars
 
 
-def sym_core(rng, positions, tag):
-    """symbolic shadow of the gap of a real small core: returns (o, core, tr, m, g, td, dz, sym_ok)"""
+def sym_core(rng, positions, tag, model='flow'):
+    """symbolic shadow of the gap of a real small core: returns (o, core, tr, m, g, td, dz, sym_ok).  `model`: the gap model
+    the shadow is set up for ('flow', 'no_flow', 'duct_average'); the real core is built with that model."""
     import dassh
     from dassh.core import Core
-    case = gi.random_case(rng, positions=positions, n_types=2, gap_model='flow', length=0.1,
+    case = gi.random_case(rng, positions=positions, n_types=2, gap_model=model, length=0.1,
                           type_kw=dict(n_ring=2, n_duct=1))
     import os
     d = "/verif/.work/c02trace_%s_%d" % (tag, os.getpid())      # C01, C02, C04 and C07 may trace concurrently
@@ -40,6 +41,8 @@ def sym_core(rng, positions, tag):
             wp[a, l] = tr.var("wp_%d_%d" % (a, l), core.gap_params['asm wp'][a, l]) if core._asm_sc_adj[a, l] > 0 else tr.const(0)
     o.gap_params = dict(core.gap_params)
     o.gap_params['asm wp'] = wp
+    if model != 'flow':
+        o.d_gap = tr.var("dgap", float(core.d_gap))
     # rebuild the convection lookup with the real code on the symbolic perimeters
     rebind(Core._make_conv_mask, tr)(o)
     # conduction constants: one symbol per unordered pair of adjacent cells (the code's L is symmetric: checked below)
